@@ -2,7 +2,7 @@
 From Coq Require Import ZArith List Bool Sorting.Permutation Sorting.Sorted.
 From Flocq Require Import IEEE754.BinarySingleNaN.
 From Rscel Require Import Base.Prims Base.F64 Model.Value Model.Ops Model.Funcs Spec.Wf.
-From Rscel Require Import Proofs.F64Facts Proofs.OpsOrder Proofs.EqMaps.
+From Rscel Require Import Proofs.F64Facts Proofs.OpsOrder Proofs.EqMaps Proofs.EqSym.
 Import ListNotations.
 Open Scope Z_scope.
 
@@ -28,6 +28,14 @@ Theorem C04_eq_sym_partial : forall a b,
   wf a = true -> wf b = true -> scalar a = true -> scalar b = true -> eq_ a b = eq_ b a.
 Proof. exact eq_sym_scalar. Qed.
 Print Assumptions C04_eq_sym_partial.
+
+(** == is symmetric on all error-free data: scalars of any two types, lists and maps, nested to any depth
+    (NaN included; an error value inside a collection is returned as found, so the two orders may report
+    different errors: that is why the statement is about error-free values). *)
+Theorem C04_eq_sym_data : forall n a b, (vsize a < n)%nat ->
+  wf a = true -> wf b = true -> pure a = true -> pure b = true -> eq_ a b = eq_ b a.
+Proof. exact eq_sym_pure. Qed.
+Print Assumptions C04_eq_sym_data.
 
 Theorem C04_int_uint_eq_iff_same_number : forall x y,
   in_i64 x = true -> in_u64 y = true ->
